@@ -18,6 +18,7 @@ type EvalCtx struct {
 	frame  *FrameState // for source-level names (may be nil)
 	pkg    string      // package path for resolving unqualified type names
 	inOld  bool
+	bound  map[string]Val // variables bound by quantifiers and predicate parameters
 	iterCell string // visited-set cell of the map iteration of the loop being checked
 	preferFrame bool // loop invariants: source-level current values shadow entry values
 	events []Event
@@ -31,12 +32,12 @@ func (c *EvalCtx) fail(f string, a ...interface{}) { panic(evalErr{fmt.Sprintf(f
 
 func (c *EvalCtx) with(vars map[string]Val) *EvalCtx {
 	d := *c
-	d.vars = map[string]Val{}
-	for k, v := range c.vars {
-		d.vars[k] = v
+	d.bound = map[string]Val{}
+	for k, v := range c.bound {
+		d.bound[k] = v
 	}
 	for k, v := range vars {
-		d.vars[k] = v
+		d.bound[k] = v
 	}
 	return &d
 }
@@ -162,6 +163,9 @@ func (c *EvalCtx) resolveType(ty string) types.Type {
 }
 
 func (c *EvalCtx) lookup(name string) (Val, bool) {
+	if v, ok := c.bound[name]; ok {
+		return v, true // quantifier / predicate parameters shadow everything
+	}
 	if c.preferFrame && c.frame != nil && !c.inOld {
 		if v, ok := c.frame.names[name]; ok {
 			if v.K == KAddr {
